@@ -70,6 +70,22 @@ def run(ck):
     fi = S.m["findNextIndexForDate"]
     next_index(ck, S, "C09-O2")
     tpl_next = name_pattern(ck, S, fi, "C09-O2", date_is_class=False)
+    name_scheme(ck, S, "C09-O3")
+    # ---- O4
+    ren = [n for n in rt.calls() if destructive_kind(n) == "rename"]
+    ok = len(ren) == 1 and ren[0].get("callee") == "QFile::rename" and ren[0].get("static") and len(ren[0].get("args", [])) == 2
+    ck.ob("C09-O4", sitestr(rt, ren[0]) if ren else sitestr(rt), ok, "the rotated file is produced by static QFile::rename(old, new), which refuses an existing target" if ok else
+          "rotated file produced by %s" % [describe(r)[:60] for r in ren], key="rotate|rename-form")
+    cps = [n for n in rt.calls() if name_is(n.get("callee"), ("QFile::copy",))]
+    if cps:
+        ck.ob("C09-O4", sitestr(rt, cps[0]), False, "rotate() copies the file: an existing target or a crash leaves duplicates", key="rotate|copy")
+    daily(ck, S, DF)
+
+
+def name_scheme(ck, S, RID):
+    """the name writer and both name readers agree on fields, order, separators and on how the active file's name is split"""
+    F = ck.facts
+    fi = S.m["findNextIndexForDate"]
     # ---- O3 agreement
     gnf = S.m["generateRotatedFileName"]
     frf = S.m["findRotatedFiles"]
@@ -86,6 +102,8 @@ def run(ck):
             return "base"
         if is_call(a, "QFileInfo::suffix"):
             return "suffix"
+        if is_call(a, "QFileInfo::completeSuffix"):
+            return "suffix(completeSuffix)"
         if is_call(a, "QDate::toString"):
             fmt = const_str(a["args"][0]) if a.get("args") else None
             return "date" if fmt == "yyyy-MM-dd" else "date(%s)" % fmt
@@ -136,11 +154,14 @@ def run(ck):
         return toks
     wtoks = sorted((tokens_writer(t, a, gnf) for t, a, n in wt), key=len)
     want = [["base", ".", "date", ".", "index"], ["base", ".", "date", ".", "index", ".", "suffix"]]
-    ck.ob("C09-O3", sitestr(gnf), wtoks == want, "rotated name = base.date.index[.suffix] with date yyyy-MM-dd" if wtoks == want else "rotated name templates are %s" % wtoks, key="generateRotatedFileName|scheme")
+    # the active name may be split at its last dot (completeBaseName + suffix) or at its first (baseName + completeSuffix): either is a
+    # scheme, as long as writer and readers use the same one (compared exactly below)
+    alt = [[{"base": "base(baseName)", "suffix": "suffix(completeSuffix)"}.get(t, t) for t in v] for v in want]
+    ck.ob(RID, sitestr(gnf), wtoks in (want, alt), "rotated name = base.date.index[.suffix] with date yyyy-MM-dd" if wtoks in (want, alt) else "rotated name templates are %s" % wtoks, key="generateRotatedFileName|scheme")
     for fn, nm in ((fi, "findNextIndexForDate"), (frf, "findRotatedFiles")):
         tp = [x for x in regex_patterns(F, fn) if x[0].startswith("^") or "\\d" in x[0]]
         rtoks = sorted((tokens_reader(t, a, fn) for t, a, n in tp), key=len)
-        ck.ob("C09-O3", sitestr(fn), rtoks == wtoks, "%s reads exactly the names generateRotatedFileName writes (both variants)" % nm if rtoks == wtoks else
+        ck.ob(RID, sitestr(fn), rtoks == wtoks, "%s reads exactly the names generateRotatedFileName writes (both variants)" % nm if rtoks == wtoks else
               "%s reads %s but names are written as %s" % (nm, rtoks, wtoks), key="%s|scheme-mismatch" % nm)
     # variant selection by suffix.isEmpty() in all three: the shorter template under isEmpty() == true
     for fn, nm in ((gnf, "generateRotatedFileName"), (fi, "findNextIndexForDate"), (frf, "findRotatedFiles")):
@@ -152,9 +173,9 @@ def run(ck):
             # the pattern is assembled piecewise (e.g. `if (!suffix.isEmpty()) pattern += ...`): both variants were already
             # recovered by the abstract string evaluation and compared with the writer above
             continue
-        sfx = [v for n in fn.find(lambda n: n.get("k") == "decl") for v in n.get("vars", []) if isinstance(v.get("init"), dict) and is_call(v["init"], "QFileInfo::suffix")]
+        sfx = [v for n in fn.find(lambda n: n.get("k") == "decl") for v in n.get("vars", []) if isinstance(v.get("init"), dict) and is_call(v["init"], ("QFileInfo::suffix", "QFileInfo::completeSuffix"))]
         if len(sfx) != 1:
-            ck.ob("C09-O3", sitestr(fn), None, "%s: suffix local not found" % nm)
+            ck.ob(RID, sitestr(fn), None, "%s: suffix local not found" % nm)
             continue
         isE = lambda n, d=sfx[0]["decl"]: is_call(n, "QString::isEmpty") and is_ref_to(skip_copies(n).get("obj"), d)
         short = min(tp, key=lambda x: len(x[0]))
@@ -162,16 +183,7 @@ def run(ck):
         le = gg.live(gg.projector(atom_eq(isE, True)))
         ln = gg.live(gg.projector(atom_eq(isE, False)))
         ok = gg.site_of(short[2]) in le and gg.site_of(long_[2]) not in le and gg.site_of(long_[2]) in ln and gg.site_of(short[2]) not in ln
-        ck.ob("C09-O3", sitestr(fn), ok, "%s: the suffix-less variant iff the active file has no suffix" % nm if ok else "%s selects its name variant differently" % nm, key="%s|variant-selection" % nm)
-    # ---- O4
-    ren = [n for n in rt.calls() if destructive_kind(n) == "rename"]
-    ok = len(ren) == 1 and ren[0].get("callee") == "QFile::rename" and ren[0].get("static") and len(ren[0].get("args", [])) == 2
-    ck.ob("C09-O4", sitestr(rt, ren[0]) if ren else sitestr(rt), ok, "the rotated file is produced by static QFile::rename(old, new), which refuses an existing target" if ok else
-          "rotated file produced by %s" % [describe(r)[:60] for r in ren], key="rotate|rename-form")
-    cps = [n for n in rt.calls() if name_is(n.get("callee"), ("QFile::copy",))]
-    if cps:
-        ck.ob("C09-O4", sitestr(rt, cps[0]), False, "rotate() copies the file: an existing target or a crash leaves duplicates", key="rotate|copy")
-    daily(ck, S, DF)
+        ck.ob(RID, sitestr(fn), ok, "%s: the suffix-less variant iff the active file has no suffix" % nm if ok else "%s selects its name variant differently" % nm, key="%s|variant-selection" % nm)
 
 
 def daily(ck, S, DF, RID="C09-O5"):
